@@ -737,6 +737,9 @@ func (kc *kernelCtx) hooks(b *Block, ts *TypeSpec, recv string, inline map[strin
 			if w == "ensures" {
 				ls.IterEnsures = append(ls.IterEnsures, r)
 			}
+			if w == "advances" {
+				ls.IterAdvances = append(ls.IterAdvances, r)
+			}
 			if w == "emits" {
 				ls.IterEmits = append(ls.IterEmits, splitTop(r, ",")...)
 				if strings.TrimSpace(r) == "" {
